@@ -12,7 +12,7 @@ from vf.hlib import BUFFERED_FAMILIES, MISSING, case, fail, finish, get_env, pic
 PID = "C06"
 WHICH = ["dict", "list"]
 PARTS = [(f, w) for f in BUFFERED_FAMILIES for w in WHICH]
-ACTIONS = ["read", "write-new", "write-replace", "write-nested", "clear", "reset", "read-item"]
+ACTIONS = ["read", "write-new", "write-replace", "write-nested", "clear", "write-restore", "reset", "read-item"]
 CTX = ["backend", "objects-exit-A-first", "objects-exit-B-first", "objects-entered-B-first", "backend-around-objects"]
 
 
@@ -31,7 +31,7 @@ def parts():
 
 
 def actions():
-    return ACTIONS if hlib.TIER == "thorough" else ACTIONS[:5]
+    return ACTIONS if hlib.TIER == "thorough" else ACTIONS[:6]
 
 
 def prog(ci: int, t1: int, t2: int, t3: int, t4: int, t5: int, pre: int) -> bool:
@@ -114,6 +114,14 @@ def _run(env, fam, which, ctx, sel, pre, names, args):
                     return finish(False, True)
                 obj[k] = val
                 ref[k] = val
+            elif act == "write-restore":
+                # put the originally loaded value back: the content may return to exactly
+                # the bytes the buffer entry was created with
+                k = "p" if which == "dict" else 1
+                if which == "list" and len(ref) < 2:
+                    return finish(False, True)
+                obj[k] = 2
+                ref[k] = 2
             elif act == "clear":
                 obj.clear()
                 ref.clear()
@@ -165,16 +173,16 @@ def _run(env, fam, which, ctx, sel, pre, names, args):
 
 def plan(tier):
     if tier == "quick":
-        return [{"fn": "prog", "nparts": 4 * 10, "timeout": 300}]
-    return [{"fn": "prog", "nparts": len(PARTS) * 15, "timeout": 2400}]
+        return [{"fn": "prog", "nparts": 4 * 12, "timeout": 300}]  # class x first token (2 objects x 6 actions)
+    return [{"fn": "prog", "nparts": len(PARTS) * 24, "timeout": 2400}]  # class x first token (3 objects x 8 actions)
 
 
 def smoke(tier):
     out = []
-    for part in range(40):
+    for part in range(48):
         for ci in range(5):
-            for t in range(0, 10, 3):
-                out.append(("prog", (ci, t, (t + 3) % 10, (t + 5) % 10, 0, 0, (ci + t) % 3), part, 40))
+            for t in range(0, 12, 3):
+                out.append(("prog", (ci, t, (t + 3) % 12, (t + 5) % 12, 0, 0, (ci + t) % 3), part, 48))
     return out
 
 
